@@ -341,8 +341,19 @@ class Impl:
             self.local_results = []
             self.printed_evals = 0
             self.printed_log = 0
-            if self.listeners == "rec":
+            if self.listeners.startswith("rec"):
+                # "rec+k": k further listeners that override nothing (half of them in front of the recording one): the number of
+                # attached listeners must not matter to the search (GetResults is called once per listener after every call)
+                from iOpt.method.listener import Listener
+                extra = int(self.listeners[4:]) if self.listeners.startswith("rec+") else 0
+
+                class Passive(Listener):
+                    pass
+                for _ in range(extra // 2):
+                    self.sv.AddListener(Passive())
                 self.sv.AddListener(self._make_listener())
+                for _ in range(extra - extra // 2):
+                    self.sv.AddListener(Passive())
             return "ok"
         if c in ("sv.oracle", "sv.local"):
             return "ok"
